@@ -18,6 +18,7 @@ EXPLANATION = (
 RULE = "one obligation per permit binding x exit class, per error construction site, per await preceding the acquire"
 TRUSTED = ["tokio::sync::Semaphore / OwnedSemaphorePermit (drop returns the permit)", "tokio::time::timeout", "may-unwind policy table"]
 ASSUMPTIONS = []
+CONFIG_CRATES = ["tower_resilience_bulkhead"]
 TECHNIQUE = "static analysis of built MIR: acquire/release pairing over return/unwind/coroutine-drop edges with RAII guards, edge dominance of error constructions, await inventory"
 
 
